@@ -57,7 +57,7 @@ static sexp_sint_t verif_slice (sexp ctx, sexp_sint_t fuel) {
   sexp_sint_t res = fuel;
   int i;
   if (verif_sched_mode < 0) verif_sched_init();
-  if (!verif_sched_mode || fuel <= 0) return fuel;
+  if (!verif_sched_mode) return fuel;
   /* a budget in logical steps (quanta handed out, waiting ones included), so that "never finishes" is decided */
   /* without a wall clock */
   if (verif_sched_budget == 0) verif_sched_budget = getenv("CHIBI_VERIF_MAXSLICES") ? atol(getenv("CHIBI_VERIF_MAXSLICES")) : -1;
@@ -68,6 +68,7 @@ static sexp_sint_t verif_slice (sexp ctx, sexp_sint_t fuel) {
     verif_sched_report();
     _exit(87);
   }
+  if (fuel <= 0) return fuel;
   /* only while there is somebody to switch to: keeps single-threaded phases (module loading) at */
   /* full speed and makes an explicit slice list start with the first multi-threaded quantum     */
   if (!sexp_pairp(sexp_global(ctx, SEXP_G_THREADS_FRONT)) && !sexp_pairp(sexp_global(ctx, SEXP_G_THREADS_PAUSED)))
